@@ -4,6 +4,7 @@ import (
 	"fmt"
 	"go/token"
 	"go/types"
+	"strings"
 
 	"argverif/internal/core"
 
@@ -376,6 +377,86 @@ func runHeap(c *Ctx) {
 			}
 		}
 		c.R.Add("HEAP-H3", key+"|improves", name, pos, cmpOK, "the update is guarded by new distance < (or <=) the item's current distance", fmt.Sprintf("ok=%v", cmpOK), core.LitStrings(lits)...)
+		// … and by nothing else: an extra condition on the relaxation (a weight test, an "overflow" test on the candidate)
+		// silently skips edges the search must follow. Reviewed conditions: loop bounds, the visited test, the improvement
+		// test, presence of the neighbour's queue item.
+		extra := ""
+		// conditions evaluated once per extracted vertex (before the loop over its out-edges) are not per-edge
+		// restrictions: only what is tested inside the edge loop can skip an individual relaxation
+		outer := map[string]bool{}
+		{
+			var ehdr *ssa.BasicBlock
+			for d := r.st.Block().Idom(); d != nil; d = d.Idom() {
+				if core.ReachableAvoiding(r.st.Block(), d, nil) {
+					ehdr = d
+					break
+				}
+			}
+			if ehdr != nil {
+				for _, g := range core.Guards(r.st.Block()) {
+					if g.At.Block() != ehdr && g.At.Block().Dominates(ehdr) {
+						outer[core.LitOf(g.Cond, g.Pol).String()] = true
+					}
+				}
+			}
+		}
+		for _, l0 := range lits {
+			l := core.PositiveOrder(l0)
+			switch {
+			case outer[l0.String()]:
+			case core.IsLoopBound(l0):
+			case l.Kind == "ok":
+			case l.Kind == "cmp" && (l.X == r.st.Val || l.Y == r.st.Val) && (core.Path(l.X) == oldPath || core.Path(l.Y) == oldPath):
+			case l.Kind == "cmp" && (core.IsNilConst(l.X) || core.IsNilConst(l.Y)):
+				// the neighbour's item exists
+			case isDrainCond(l):
+				// the outer loop: while the queue is not empty
+			default:
+				if _, _, isMember := core.MemberLit(l0); isMember {
+					continue
+				}
+				extra = l0.String()
+			}
+		}
+		// a condition that is not a dominating literal (`if a && b { continue }` leaves the relaxation reachable over two
+		// edges): once the neighbour passed the visited test, the improvement test is evaluated on every way to the next
+		// iteration
+		if extra == "" {
+			var visG, cmpG *core.Guard
+			gs := core.Guards(r.st.Block())
+			for i := range gs {
+				l := core.PositiveOrder(core.LitOf(gs[i].Cond, gs[i].Pol))
+				if _, _, isMember := core.MemberLit(core.LitOf(gs[i].Cond, gs[i].Pol)); isMember {
+					visG = &gs[i]
+				}
+				if l.Kind == "cmp" && (l.X == r.st.Val || l.Y == r.st.Val) {
+					cmpG = &gs[i]
+				}
+			}
+			if visG != nil && cmpG != nil {
+				vb, cb := visG.At.Block(), cmpG.At.Block()
+				// the side of the visited test that leads on to the relaxation
+				var next *ssa.BasicBlock
+				for _, sc := range vb.Succs {
+					if sc == r.st.Block() || core.ReachableAvoiding(sc, r.st.Block(), map[*ssa.BasicBlock]bool{vb: true}) {
+						next = sc
+					}
+				}
+				// the innermost loop header around the visited test
+				var hdr *ssa.BasicBlock
+				for d := vb.Idom(); d != nil; d = d.Idom() {
+					if core.ReachableAvoiding(vb, d, nil) {
+						hdr = d
+						break
+					}
+				}
+				if next != nil && hdr != nil && next != cb && core.ReachableAvoiding(next, hdr, map[*ssa.BasicBlock]bool{cb: true}) {
+					extra = "after the visited test the next iteration can be reached without evaluating the improvement test (an extra skip condition)"
+				}
+			}
+		}
+		c.R.Add("HEAP-H3", key+"|no-other-condition", name, pos, extra == "",
+			"a relaxation is restricted only by the visited test and the improvement test", ternary(extra == "", "only reviewed conditions", "additional condition: "+extra))
 		c.R.Add("HEAP-H3", key+"|not-visited", name, pos, visOK && visited != nil,
 			"the update is guarded by 'neighbour not yet extracted' and every extracted vertex is recorded as visited right after the pop (also what keeps the predecessor map acyclic)",
 			fmt.Sprintf("visited-set-found=%v guard=%v", visited != nil, visOK))
@@ -715,4 +796,24 @@ func stopAtRepair(indexField, vPath string) func(ssa.Instruction) bool {
 		}
 		return false
 	}
+}
+
+// isDrainCond: `queue.Len() > 0` / `len(queue) > 0` / `!= 0` — the condition of the loop that drains a work list.
+func isDrainCond(l core.Lit) bool {
+	if l.Kind != "cmp" {
+		return false
+	}
+	k, ok := core.ConstInt(l.Y)
+	if !ok || k != 0 {
+		return false
+	}
+	if !((l.Op == token.GTR && l.Pol) || (l.Op == token.EQL && !l.Pol) || (l.Op == token.LEQ && !l.Pol)) {
+		return false
+	}
+	cl, ok := l.X.(*ssa.Call)
+	if !ok {
+		return false
+	}
+	n := core.CalleeName(cl.Common())
+	return n == "builtin.len" || strings.HasSuffix(n, ".Len")
 }
